@@ -422,7 +422,7 @@ class Interp:
 
     def st_While(self, st, fr):
         ordinal = self.loop_ordinal(fr, st)
-        spec = self.registry.loop_spec(fr.fi.qualname, ordinal) if self.registry else None
+        spec = self.registry.loop_spec(fr.fi.qualname, ordinal, st) if self.registry else None
         if spec is not None and not self.concrete:
             return self.loop_cut_while(st, fr, spec, ordinal)
         n = 0
@@ -458,7 +458,7 @@ class Interp:
                     continue
             self.exec_block(st.orelse, fr)
             return
-        spec = self.registry.loop_spec(fr.fi.qualname, ordinal) if self.registry else None
+        spec = self.registry.loop_spec(fr.fi.qualname, ordinal, st) if self.registry else None
         if spec is None:
             raise OutOfSubset(f'for loop #{ordinal} at L{st.lineno} of {fr.fi.qualname} over a symbolic iterable has no invariant')
         self.loop_cut_for(st, fr, it, spec, ordinal)
